@@ -1,5 +1,6 @@
 import MithrilModel.SignerOnce
 import MithrilModel.SignerInv
+import MithrilModel.SignerAgg
 /-!
 # C20 — A signer signs each beacon once with its epoch key, acceptably to aggregators
 
@@ -161,5 +162,135 @@ example :
     ((run (initState witnessEnv) signingEvents).pubs.map (fun p => (p.entity, p.key))) =
       [(⟨.msd, 3, 0⟩, 0), (⟨.csd, 2, 0⟩, 0), (⟨.cdb, 3, 1⟩, 0), (⟨.msd, 4, 0⟩, 1), (⟨.csd, 3, 0⟩, 1), (⟨.cdb, 4, 1⟩, 1)] := by
   decide
+
+/-! ## Layer `compose` (`MithrilModel/SignerAgg.lean`): marked ⇒ published, composition with the aggregator
+model `Agg`, stake distribution in force. `SignerAgg.runG false` is `Signer.run` next to a chronological log of
+observations (`published p w`, `noLottery t x`, `marked t x`) and the history of the chain's stake distributions;
+`SignerAgg.runG true` is the deliberately broken certifier that marks before it publishes. -/
+
+/-- **marked ⇒ published**, every history: the logged run is the model's run; the log's publications are the
+model's publication log; every row `(t, x)` of the signed-beacon table was written by a mark that comes in the
+history after a publication of `x` made at chain epoch `t` reached the aggregator, or after "no lottery won" for
+`x`; likewise every `marked` observation (pruned since or not). -/
+theorem C20_marked_implies_published (env : Env) (evs : List Event) :
+    (SignerAgg.runG false (SignerAgg.initG env) evs).s = run (initState env) evs ∧
+    (SignerAgg.runG false (SignerAgg.initG env) evs).log.filterMap SignerAgg.pubOf = (run (initState env) evs).pubs ∧
+    (∀ t x, (t, x) ∈ (run (initState env) evs).st.signed →
+      ∃ pre post, (SignerAgg.runG false (SignerAgg.initG env) evs).log = pre ++ SignerAgg.Obs.marked t x :: post ∧
+        SignerAgg.Justified pre t x) ∧
+    SignerAgg.MIP (SignerAgg.runG false (SignerAgg.initG env) evs).log :=
+  SignerAgg.marked_implies_published env evs
+
+/-- when no tick reports "all lotteries lost", every marked beacon has its publication in the model's log -/
+theorem C20_marked_published_when_won (env : Env) (evs : List Event) (hw : ∀ ev ∈ evs, ev ≠ .tick true)
+    (t : Nat) (x : Entity) (hx : (t, x) ∈ (run (initState env) evs).st.signed) :
+    ∃ p ∈ (run (initState env) evs).pubs, p.entity = x ∧ p.chainEpoch = t :=
+  SignerAgg.marked_published_when_won env evs hw t x hx
+
+/-- the broken variant (mark before publish) violates the property: `readyPrefix ++ [setPubFail 2, tick]` -/
+theorem C20_mark_before_publish_counterexample :
+    ¬ ∀ (env : Env) (evs : List Event), SignerAgg.MarkedImpliesPublished (SignerAgg.runG true (SignerAgg.initG env) evs) :=
+  SignerAgg.mark_before_publish_counterexample
+
+/-- … while the code's order satisfies the same predicate for every history -/
+theorem C20_publish_before_mark_holds (env : Env) (evs : List Event) :
+    SignerAgg.MarkedImpliesPublished (SignerAgg.runG false (SignerAgg.initG env) evs) :=
+  SignerAgg.publish_before_mark_holds env evs
+
+/-- **accepted** (composition with `Agg.registerSig`): see `SignerAgg.accepted`. -/
+theorem C20_accepted (env : Env) (evs : List Event) (h0 : env.aggReg = []) (hev : ∀ ev ∈ evs, SignerAgg.OthersOnly ev)
+    (p : Pub) (hp : p ∈ (run (initState env) evs).pubs)
+    (stake : List (Nat × Nat)) (m sigma : Nat) (idx : List Nat) (auth : Bool)
+    (E : Agg.Env) (A : Agg.St) (enc : Entity → Nat) (o : Agg.OM)
+    (hstake : ∃ v, lookup stake (retrieval p.chainEpoch) = some v ∧
+      (retrieval p.chainEpoch - 1, v) ∈ SignerAgg.chainVers env evs)
+    (hregs : Agg.signersOf A.regs (retrieval p.chainEpoch) =
+      (regsFor (run (initState env) evs).env.aggReg (retrieval p.chainEpoch)).map (·.party))
+    (hom : Agg.findOm (enc p.entity) A.oms = some o) (hoe : o.epoch = p.entity.signEpoch) (hmsg : o.msg = m)
+    (hc : o.certified = false) (hx : o.expired = false) (hes : A.es = some o.epoch) :
+    (∃ w, SignerAgg.Obs.published p w ∈ (SignerAgg.runG false (SignerAgg.initG env) evs).log ∧
+      w.cur = regsFor (run (initState env) evs).env.aggReg (retrieval p.chainEpoch)) ∧
+    Agg.sigClass A (enc p.entity)
+      (SignerAgg.sigOf ⟨(run (initState env) evs).env.aggReg, stake⟩
+        (regsFor (run (initState env) evs).env.aggReg (retrieval p.chainEpoch)) p m sigma idx auth) = .registered ∧
+    (Agg.registerSig E A (enc p.entity)
+      (SignerAgg.sigOf ⟨(run (initState env) evs).env.aggReg, stake⟩
+        (regsFor (run (initState env) evs).env.aggReg (retrieval p.chainEpoch)) p m sigma idx auth)).sigs.filter
+        (fun r => r.entity = enc p.entity && r.party = 0) =
+      [{ entity := enc p.entity, party := 0, sigma := sigma, idx := idx, signer := 0, msg := m, vEpoch := p.chainEpoch }] :=
+  SignerAgg.accepted env evs h0 hev p hp stake m sigma idx auth E A enc o hstake hregs hom hoe hmsg hc hx hes
+
+/-- accepted, with the agreement of the two messages derived from the next signer list and its stake distribution -/
+theorem C20_accepted_msg (env : Env) (evs : List Event) (h0 : env.aggReg = []) (hev : ∀ ev ∈ evs, SignerAgg.OthersOnly ev)
+    (p : Pub) (hp : p ∈ (run (initState env) evs).pubs)
+    (stake : List (Nat × Nat)) (M : Entity → List Reg → Nat → Nat) (sigma : Nat) (idx : List Nat) (auth : Bool)
+    (E : Agg.Env) (A : Agg.St) (enc : Entity → Nat) (o : Agg.OM)
+    (hstake : ∃ v, lookup stake (retrieval p.chainEpoch) = some v ∧
+      (retrieval p.chainEpoch - 1, v) ∈ SignerAgg.chainVers env evs)
+    (hregs : Agg.signersOf A.regs (retrieval p.chainEpoch) =
+      (regsFor (run (initState env) evs).env.aggReg (retrieval p.chainEpoch)).map (·.party))
+    (hom : Agg.findOm (enc p.entity) A.oms = some o) (hoe : o.epoch = p.entity.signEpoch)
+    (hmsg : ∃ v', lookup stake (nextRetrieval p.chainEpoch) = some v' ∧
+      (nextRetrieval p.chainEpoch - 1, v') ∈ SignerAgg.chainVers env evs ∧
+      o.msg = M p.entity (regsFor (run (initState env) evs).env.aggReg (nextRetrieval p.chainEpoch)) v')
+    (hc : o.certified = false) (hx : o.expired = false) (hes : A.es = some o.epoch) :
+    ∃ w, SignerAgg.Obs.published p w ∈ (SignerAgg.runG false (SignerAgg.initG env) evs).log ∧
+      M p.entity w.next w.nextStake = o.msg ∧
+      Agg.sigClass A (enc p.entity)
+        (SignerAgg.sigOf ⟨(run (initState env) evs).env.aggReg, stake⟩ w.cur p (M p.entity w.next w.nextStake)
+          sigma idx auth) = .registered :=
+  SignerAgg.accepted_msg env evs h0 hev p hp stake M sigma idx auth E A enc o hstake hregs hom hoe hmsg hc hx hes
+
+/-- accepted, the aggregator model being in a state of its invariant and SIGNING the entity -/
+theorem C20_accepted_signing (env : Env) (evs : List Event) (h0 : env.aggReg = []) (hev : ∀ ev ∈ evs, SignerAgg.OthersOnly ev)
+    (p : Pub) (hp : p ∈ (run (initState env) evs).pubs)
+    (stake : List (Nat × Nat)) (sigma : Nat) (idx : List Nat) (auth : Bool)
+    (E : Agg.Env) (A : Agg.St) (enc : Entity → Nat) (o : Agg.OM) (ep : Nat)
+    (hinv : Agg.SInv E A) (hrt : A.rt = .signing ep (enc p.entity)) (henc : E.entityEpoch (enc p.entity) = p.entity.signEpoch)
+    (hstake : ∃ v, lookup stake (retrieval p.chainEpoch) = some v ∧
+      (retrieval p.chainEpoch - 1, v) ∈ SignerAgg.chainVers env evs)
+    (hregs : Agg.signersOf A.regs (retrieval p.chainEpoch) =
+      (regsFor (run (initState env) evs).env.aggReg (retrieval p.chainEpoch)).map (·.party))
+    (hom : Agg.findOm (enc p.entity) A.oms = some o) (hc : o.certified = false) (hx : o.expired = false) :
+    Agg.sigClass A (enc p.entity)
+      (SignerAgg.sigOf ⟨(run (initState env) evs).env.aggReg, stake⟩
+        (regsFor (run (initState env) evs).env.aggReg (retrieval p.chainEpoch)) p o.msg sigma idx auth) = .registered :=
+  SignerAgg.accepted_signing env evs h0 hev p hp stake sigma idx auth E A enc o ep hinv hrt henc hstake hregs hom hc hx
+
+/-- the converse of acceptance: with the verdicts computed from the keys, `Agg` registers the signer's signature only
+if key, signer list and stake distribution are those the aggregator holds for the epoch service's epoch -/
+theorem C20_registered_only_if (V : SignerAgg.KeyView) (R : List Reg) (p : Pub) (m sigma : Nat) (idx : List Nat) (auth : Bool)
+    (A : Agg.St) (e : Nat) (h : Agg.sigClass A e (SignerAgg.sigOf V R p m sigma idx auth) = .registered) :
+    ∃ ep o, A.es = some ep ∧ Agg.findOm e A.oms = some o ∧ o.msg = m ∧
+      regsFor V.reg (retrieval ep) = R ∧ SignerAgg.keyOf V.reg (retrieval ep) 0 = some p.key ∧
+      lookup V.stake (retrieval ep) = some p.stakeVer ∧ 0 ∈ Agg.signersOf A.regs (o.epoch - 1) :=
+  SignerAgg.registered_only_if V R p m sigma idx auth A e h
+
+/-- the offset relation stated on both models (signer: registered when the aggregator announced `a`, recorded under
+`a + 1`, signs in `a + 2` from the list kept under `(a + 2) − 1`; aggregator: the round of epoch `a` is `a + 1`, the
+signer set demanded for an open message of epoch `a + 2` is the one of key `(a + 2) − 1`) -/
+theorem C20_offsets_both_models (env : Env) (evs : List Event) (h0 : env.aggReg = []) (p : Pub)
+    (hp : p ∈ (run (initState env) evs).pubs) :
+    ∃ q ∈ (run (initState env) evs).saved, q.key = p.key ∧
+      q.recEpoch = recording q.aggEpoch ∧ p.chainEpoch = q.aggEpoch + SIGNING ∧ retrieval p.chainEpoch = q.recEpoch ∧
+      (⟨0, p.key⟩ : Reg) ∈ regsFor (run (initState env) evs).env.aggReg q.recEpoch ∧
+      (∀ (s : Agg.St) (tp : Agg.Tp), tp.epoch = q.aggEpoch → (Agg.epochInit s tp).round = some q.recEpoch) ∧
+      (∀ (o : Agg.OM), o.epoch = p.chainEpoch → o.epoch - 1 = q.recEpoch) :=
+  SignerAgg.offsets_both_models env evs h0 p hp
+
+/-- the signer never gets two different keys recorded for one round (other parties not registering under its id) -/
+theorem C20_one_key_per_round (env : Env) (evs : List Event) (h0 : env.aggReg = [])
+    (hev : ∀ ev ∈ evs, SignerAgg.OthersOnly ev) (r k k' : Nat)
+    (h : (r, (⟨0, k⟩ : Reg)) ∈ (run (initState env) evs).env.aggReg)
+    (h' : (r, (⟨0, k'⟩ : Reg)) ∈ (run (initState env) evs).env.aggReg) : k = k' :=
+  SignerAgg.one_key_per_round env evs h0 hev r k k' h h'
+
+/-- **stake distribution in force**: `stakes[e]` = what the chain reported in `e − 1`; a signature of chain epoch `E`
+was made with what the chain reported in `E − 2` -/
+theorem C20_stake_in_force (env : Env) (evs : List Event) (h0 : env.aggReg = []) :
+    (∀ r ∈ (run (initState env) evs).st.stakes, 1 ≤ r.1 ∧ (r.1 - 1, r.2) ∈ SignerAgg.chainVers env evs) ∧
+    ∀ p ∈ (run (initState env) evs).pubs,
+      2 ≤ p.chainEpoch ∧ (p.chainEpoch - 2, p.stakeVer) ∈ SignerAgg.chainVers env evs :=
+  SignerAgg.stake_in_force env evs h0
 
 end C20
